@@ -337,6 +337,19 @@ def cases_push_lengths(tier):
         yield {"data": "%02x%02x" % (b, b)}
 
 
+def cases_push_small_data(tier):
+    """every 2-byte data string, and every 3- and 4-byte string over the bytes that have a dedicated push opcode
+    (01..10, 81) or sit next to them: data that merely *contains* such bytes is pushed minimally by a direct push"""
+    import itertools
+    for a in range(256):
+        for b in range(256):
+            yield {"data": "%02x%02x" % (a, b)}
+    special = [0x00, 0x01, 0x02, 0x03, 0x0f, 0x10, 0x11, 0x80, 0x81, 0x82]
+    for n in (3, 4):
+        for t in itertools.product(special, repeat=n):
+            yield {"data": bytes(t).hex()}
+
+
 def s_push():
     ln = st.one_of(st.sampled_from([0, 1, 2, 74, 75, 76, 77, 254, 255, 256, 257, 520, 521]), st.integers(0, 80), st.integers(0, 700))
     small = st.one_of(st.binary(max_size=3), st.sampled_from([bytes([b]) for b in (0, 1, 2, 15, 16, 17, 0x7f, 0x80, 0x81, 0x82, 0xff)]))
@@ -509,6 +522,8 @@ SUBCHECKS = [
                   "compile_push_data == unique CheckMinimalPush-accepted encoding, get_opcode/get_opcodes read it back with and "
                   "without verify_minimal_data; every explicit push form (direct/PUSHDATA1/2/4) reads back and its MINIMALDATA "
                   "verdict equals CheckMinimalPush; non-trivial = length in {0,1,75,76,255,256,65535,65536}"),
+    SubCheck("pushes_small_data_exhaustive", o_push, cases=cases_push_small_data, exhaustive=True, nontrivial=lambda c, l: True,
+             rule="all 65536 two-byte data strings and all 3- and 4-byte strings over {00,01,02,03,0f,10,11,80,81,82}: shortest encoding, read-back, and the MINIMALDATA verdict of every push form equals CheckMinimalPush"),
     SubCheck("pushes_generated", o_push, strategy=s_push, budget=(1500, 60000), nontrivial=nt_push,
              rule="generated data (0..700 bytes, 1-3 byte specials) preceded by 0..4 OP_NOPs; same oracle"),
     SubCheck("push_prefixes_lengths", o_push_prefixes, cases=cases_push_lengths, exhaustive=True,
